@@ -100,6 +100,10 @@ func (c *cache) Set(key, val []byte) bool {
 
 	if c.conf.EnableLRU {
 		listAppend(&it.used, listLast(&c.usage))
+	} else {
+		// Make the item a list of its own, so that unlinking it on replacement
+		// or deletion is a no-op instead of a nil dereference.
+		listInit(&it.used)
 	}
 
 	it2, exists := c.items[string(key)]
